@@ -155,7 +155,14 @@ impl OsIpcSender {
     }
 
     pub fn connect(name: String) -> Result<OsIpcSender, ChannelError> {
-        let record = ONE_SHOT_SERVERS.lock().unwrap().get(&name).unwrap().clone();
+        // A name that was never handed out, or whose server has accepted or was dropped, is an
+        // error as on the OS back-ends (and must not panic with the registry locked).
+        let record = ONE_SHOT_SERVERS
+            .lock()
+            .unwrap()
+            .get(&name)
+            .cloned()
+            .ok_or(ChannelError::UnknownError)?;
         record.connect();
         Ok(record.sender)
     }
@@ -314,8 +321,19 @@ impl OsIpcOneShotServer {
             .clone();
         record.accept();
         ONE_SHOT_SERVERS.lock().unwrap().remove(&self.name).unwrap();
-        let (data, channels, shmems) = self.receiver.recv()?;
-        Ok((self.receiver, data, channels, shmems))
+        let receiver = self.receiver.consume();
+        let (data, channels, shmems) = receiver.recv()?;
+        Ok((receiver, data, channels, shmems))
+    }
+}
+
+impl Drop for OsIpcOneShotServer {
+    fn drop(&mut self) {
+        // A server dropped without `accept` must not stay reachable by name
+        // (after `accept` the name is gone already).
+        if let Ok(mut servers) = ONE_SHOT_SERVERS.lock() {
+            servers.remove(&self.name);
+        }
     }
 }
 
